@@ -59,6 +59,8 @@ type toolPlan struct {
 	Env       []string `json:"env,omitempty"`    // additions to the tool's process environment (variables it is seen to read)
 	// GoMaxProcs: the size of the machine as the tool's runtime sees it (0 = inherited)
 	GoMaxProcs int `json:"gomaxprocs,omitempty"`
+	// NoLen: responses carry no length (as compressed or chunked deliveries do)
+	NoLen bool `json:"no_len,omitempty"`
 }
 
 func (p *toolPlan) faultRun() bool {
@@ -247,6 +249,10 @@ func (g *c17Engine) run(tp *toolPlan) (*toolVerdict, map[string]int, error) {
 	if tp.FragSeed != 0 {
 		env = append(env, "BIP39_VERIF_FRAG="+strconv.FormatUint(tp.FragSeed, 10))
 		stats["runs_with_fragmented_bodies"]++
+	}
+	if tp.NoLen {
+		env = append(env, "BIP39_VERIF_NOLEN=1")
+		stats["runs_with_responses_of_unknown_length"]++
 	}
 	if tp.GoMaxProcs > 0 {
 		env = append(env, "GOMAXPROCS="+strconv.Itoa(tp.GoMaxProcs))
@@ -655,6 +661,7 @@ func CheckC17(e *Env) (int, error) {
 	e.Logf("C17: %d tool runs (map ranges rewritten: %d, uncontrolled ranges: %d)", n, rep.MapRanges, rep.OtherRanges)
 	e.Parallel(n, func(i int) {
 		tp := genToolPlan(plan.Derive(e.Seed, "C17/run", uint64(i)), i)
+		tp.NoLen = i%4 == 2
 		if i%3 == 1 { // the size of the machine: a tool that fetches or renders in parallel sizes its workers by it
 			tp.GoMaxProcs = []int{1, 2, 3, 4, 5, 6, 7, 8, 9, 12}[(i/3)%10]
 		}
